@@ -53,6 +53,7 @@ class Profile:
         self.preload = 0  # max unrelated events preloaded per bus by a dedicated first actor
         self.burst = [2, 3, 5]
         self.acc_names = ['event_result', 'event_results_list', 'event_results_by_handler_name']  # accessors the 'acc' actor op may call
+        self.shadow = 0.0  # probability that a second, unused bus is requested with the name of an existing one
         self.hredisp = 0.0  # probability that a handler program re-dispatches an existing root event object (a 'retry this job' handler)
         self.fan = 0.0  # probability that one root handler fans out more children than the bus accepts (back-pressure inside a handler)
         self.__dict__.update(kw)
@@ -214,6 +215,8 @@ def scenario(draw, p: Profile):
             handlers[hi] = h
             buses[tb]['hist'] = 50  # the back-pressure limit is only enforced on buses with a history limit
             sc['cap'] = max(sc['cap'], 400)
+    if p.shadow and chance(draw, p.shadow):
+        sc['shadow'] = draw(st.lists(st.integers(0, nb - 1), min_size=1, max_size=nb, unique=True))
     if p.watch:
         sc['watch'] = True
     if p.timeouts is not None:
